@@ -26,6 +26,7 @@ import (
 	"github.com/lidofinance/dc4bc/client/modules/keystore"
 	"github.com/lidofinance/dc4bc/client/modules/logger"
 	"github.com/lidofinance/dc4bc/client/modules/state"
+	oprepo "github.com/lidofinance/dc4bc/client/repositories/operation"
 	"github.com/lidofinance/dc4bc/client/services"
 	"github.com/lidofinance/dc4bc/client/services/fsmservice"
 	"github.com/lidofinance/dc4bc/client/services/operation"
@@ -113,17 +114,17 @@ func (s *BaseNodeService) ProcessMessage(message storage.Message) error {
 		return nil
 	}
 
-	operation, err := s.processMessage(message)
-	if err != nil {
-		return err
-	}
-
-	if operation != nil {
-		if err := s.opService.PutOperation(operation); err != nil {
+	// The operation a message gives rise to is stored before the new round state is: if the
+	// process dies in between, the message is handled again after the restart (the offset was
+	// not advanced), produces the very same operation and finds it already stored. The other
+	// order loses the operation for good, because the round has already moved past the message.
+	_, err := s.handleMessage(message, func(operation *types.Operation) error {
+		if err := s.opService.PutOperation(operation); err != nil && !errors.Is(err, oprepo.ErrOperationExists) {
 			return fmt.Errorf("failed to PutOperation: %w", err)
 		}
-	}
-	return nil
+		return nil
+	})
+	return err
 }
 
 func (s *BaseNodeService) SetSkipCommKeysVerification(b bool) {
@@ -669,6 +670,12 @@ func (s *BaseNodeService) processSignatureProposal(message storage.Message) erro
 }
 
 func (s *BaseNodeService) processMessage(message storage.Message) (*types.Operation, error) {
+	return s.handleMessage(message, nil)
+}
+
+// handleMessage applies a message to its round. storeOperation, if given, is called with the
+// operation the message gives rise to just before the new round state is saved.
+func (s *BaseNodeService) handleMessage(message storage.Message, storeOperation func(*types.Operation) error) (*types.Operation, error) {
 	fsmInstance, err := s.fsmService.GetFSMInstance(message.DkgRoundID, true)
 	if err != nil {
 		return nil, fmt.Errorf("failed to getFSMInstance: %w", err)
@@ -870,6 +877,12 @@ func (s *BaseNodeService) processMessage(message storage.Message) (*types.Operat
 	if fsm.Event(message.Event) == sif.EventSigningStart {
 		if err := s.processSignatureProposal(message); err != nil {
 			return nil, fmt.Errorf("failed to process signature: %w", err)
+		}
+	}
+
+	if operation != nil && storeOperation != nil {
+		if err := storeOperation(operation); err != nil {
+			return nil, err
 		}
 	}
 
